@@ -206,6 +206,7 @@ pub struct Stats {
 	pub states: Mutex<HashSet<u64>>,
 	pub outcomes: Mutex<HashSet<u64>>,
 	pub distinct_inputs: Mutex<HashSet<u64>>,
+	pub bulk: AtomicU64,
 	pub samples: Mutex<Vec<Value>>,
 	pub viols: Mutex<Vec<(Viol, Value)>>,
 	pub viol_count: AtomicU64,
@@ -251,6 +252,7 @@ pub fn init_ctx(prop: &'static str, level: &'static str, tier: Tier, replay_mode
 			states: Mutex::new(HashSet::new()),
 			outcomes: Mutex::new(HashSet::new()),
 			distinct_inputs: Mutex::new(HashSet::new()),
+			bulk: AtomicU64::new(0),
 			samples: Mutex::new(vec![]),
 			viols: Mutex::new(vec![]),
 			viol_count: AtomicU64::new(0),
@@ -498,6 +500,8 @@ pub struct Local {
 	pub outcomes: HashSet<u64>,
 	pub inputs: HashSet<u64>,
 	pub samples: Vec<Value>,
+	/// cases of a by-construction duplicate-free bulk enumeration (too many to hash individually)
+	pub bulk: u64,
 }
 
 impl Local {
@@ -509,6 +513,7 @@ impl Local {
 		cx.stats.states.lock().unwrap().extend(self.states);
 		cx.stats.outcomes.lock().unwrap().extend(self.outcomes);
 		cx.stats.distinct_inputs.lock().unwrap().extend(self.inputs);
+		cx.stats.bulk.fetch_add(self.bulk, Ordering::Relaxed);
 		let mut g = cx.stats.samples.lock().unwrap();
 		for s in self.samples {
 			if g.len() < 12 {
@@ -703,7 +708,7 @@ fn write_evidence(cx: &Ctx, violations: u64, known_hits: &BTreeMap<String, (Stri
 	}
 	let mut coverage = serde_json::Map::new();
 	coverage.insert("evaluations".into(), json!(evaluations));
-	coverage.insert("distinct_nontrivial".into(), json!(cx.stats.distinct_inputs.lock().unwrap().len()));
+	coverage.insert("distinct_nontrivial".into(), json!(cx.stats.distinct_inputs.lock().unwrap().len() as u64 + cx.stats.bulk.load(Ordering::Relaxed)));
 	coverage.insert("nontrivial_evaluations".into(), json!(cx.stats.nontrivial.load(Ordering::Relaxed)));
 	coverage.insert("states".into(), json!(states));
 	coverage.insert("transitions".into(), json!(transitions));
